@@ -502,6 +502,7 @@ type Contract struct {
 	GhostCalls []Clause
 	Records    []Clause // history tokens: uninterpreted predicates asserted of the call's arguments/results (assumed at call sites, nothing to check)
 	Reveal     []string // opaque predicates whose definitions are expanded when verifying this function
+	FrameCalls []string // callees abstracted by the assigns clause of their own contract (requires / ensures not used)
 	HavocCalls []string // callees whose calls are abstracted by their computed write set here (their contracts/bodies are not used)
 	Forget     []string // "callee" or "callee:label": callee ensures that are not imported when verifying this function (keeps queries small)
 	Uses       []string // axioms to include when verifying this function
@@ -578,7 +579,7 @@ type SpecFile struct {
 	Lemmas    []*Lemma
 }
 
-var keywordRe = regexp.MustCompile(`^(package|func|interface|requires|ensures|assigns|invariant|decreases|loop|pure|pred|axiom|ghost|nopanic|let|letold|reads|trusted|callback|cb_requires|cb_ensures|cb_assigns|cb_pure|inline|opaque|modifies|implements|lemma|call|assert|probe|uses|records|witness|forget|checks|havocs|reveal|immutable|ensures_trusted)\b`)
+var keywordRe = regexp.MustCompile(`^(package|func|interface|requires|ensures|assigns|invariant|decreases|loop|pure|pred|axiom|ghost|nopanic|let|letold|reads|trusted|callback|cb_requires|cb_ensures|cb_assigns|cb_pure|inline|opaque|modifies|implements|lemma|call|assert|probe|uses|records|witness|forget|checks|havocs|reveal|immutable|ensures_trusted|frames)\b`)
 
 var labelRe = regexp.MustCompile(`^\[([A-Za-z0-9_./-]+)\]\s*`)
 
@@ -715,6 +716,8 @@ func ParseSpecFile(path string, data []byte, defaultPkg string) (*SpecFile, erro
 			}
 		case "havocs":
 			cur.HavocCalls = append(cur.HavocCalls, strings.Fields(strings.ReplaceAll(s.text, ",", " "))...)
+		case "frames":
+			cur.FrameCalls = append(cur.FrameCalls, strings.Fields(strings.ReplaceAll(s.text, ",", " "))...)
 		case "forget":
 			cur.Forget = append(cur.Forget, strings.Fields(strings.ReplaceAll(s.text, ",", " "))...)
 		case "uses":
